@@ -10,11 +10,12 @@
    WF w s = words < 2^w, index inside the array, every word above index is zero and
             index is the highest non-zero word (0 for the value zero).
 
-   NOT proved here (tied by the correspondence run only): |= and &= with an operand TYPE
-   at least two words wide (e.g. BigInt<uint8_t,64> |= uint64_t); move construction /
-   move assignment, SetIndex and writes through Storage() are not modelled. *)
+   Every operation of the model is covered (c19_step / c19_history range over [proved_op],
+   which admits every constructor of [op]; operand types are at most one word or at least
+   two words wide, as all C++ integer types are).  Not modelled, hence not covered: move
+   construction / move assignment, SetIndex, writes through Storage(). *)
 From Coq Require Import NArith List.
-From Qv Require Import BigIntModel BigIntProofs BigIntProofs2 BigIntHelpers BigIntDiv128 BigIntShift BigIntShiftL BigIntBits BigIntFfb BigIntWide BigIntNarrow BigIntSetWide BigIntTop.
+From Qv Require Import BigIntModel BigIntProofs BigIntProofs2 BigIntHelpers BigIntDiv128 BigIntShift BigIntShiftL BigIntBits BigIntFfb BigIntWide BigIntNarrow BigIntSetWide BigIntOrAnd BigIntTop.
 Import ListNotations.
 Local Open Scope N_scope.
 
@@ -136,6 +137,20 @@ Theorem c19_assign_wide : forall w, 0 < w -> forall ow s v, 1 < ow / w -> WF w s
 Proof. exact assign_wide_correct. Qed.
 Print Assumptions c19_assign_wide.
 
+(* |= and &= (D10 repaired) with an operand type at least two words wide: word-wise or / and
+   with the operand's words; &= clears every word above the operand *)
+Theorem c19_or_wide : forall w, 0 < w -> forall ow s v, 1 < ow / w -> WF w s -> v < pw w (length (words s)) ->
+  exists s', do_operation_t w KOr ow s v = Ok s' /\ WF w s' /\ bval w s' = N.lor (bval w s) v /\
+             length (words s') = length (words s).
+Proof. exact or_wide_correct. Qed.
+Print Assumptions c19_or_wide.
+
+Theorem c19_and_wide : forall w, 0 < w -> forall ow s v, 1 < ow / w -> WF w s -> v < pw w (length (words s)) ->
+  exists s', do_operation_t w KAnd ow s v = Ok s' /\ WF w s' /\ bval w s' = N.land (bval w s) v /\
+             length (words s') = length (words s).
+Proof. exact and_wide_correct. Qed.
+Print Assumptions c19_and_wide.
+
 (* explicit operator N_Number_T(): the value modulo 2^(bits of the target), for a target not
    wider than a word or a whole number (>= 2) of words *)
 Theorem c19_narrowing_conversion : forall w, 0 < w -> forall s tw, WF w s ->
@@ -186,6 +201,12 @@ Theorem c19_compare : forall w, 0 < w -> forall s v, WF w s -> v < Bw w ->
 Proof. exact compare_correct. Qed.
 Print Assumptions c19_compare.
 
+(* [proved_op] admits EVERY operation of the model; the only side condition is on the operand /
+   target types (at most one word, or a whole number >= 2 of words) *)
+Theorem c19_every_operation_covered : forall w o, op_types_ok w o -> proved_op w o.
+Proof. exact proved_op_all. Qed.
+Print Assumptions c19_every_operation_covered.
+
 (* one step of a history, for the operations of [proved_op] *)
 Theorem c19_step : forall w, 0 < w -> forall n s o v' r,
   proved_op w o -> WF w s -> length (words s) = n ->
@@ -194,9 +215,9 @@ Theorem c19_step : forall w, 0 < w -> forall n s o v' r,
 Proof. intros w Hw. exact (step_correct w Hw (mul2_ok_all w Hw) (div2_ok_all w)). Qed.
 Print Assumptions c19_step.
 
-(* every history of the operations of [proved_op] (Add / Subtract at any word, = += -= and
-   copy-assignment with any operand type, |= &= with operand types up to one word, *=, Divide,
-   <<=, >>=, Clear, FindFirstBit, FindLastBit, the comparisons, the conversion): as long
+(* every history of the operations of [proved_op] (Add / Subtract at any word, = += -= |= &= and
+   copy-assignment with any operand type, *=, Divide, <<=, >>=, Clear, FindFirstBit, FindLastBit,
+   the comparisons, the conversion): as long
    as the specification speaks (results fit, preconditions hold) no step errs, every
    state satisfies the invariant and holds exactly the specified integer, every returned
    remainder is exact *)
@@ -206,6 +227,14 @@ Theorem c19_history : forall w, 0 < w -> forall n ops s outs,
   Forall2 (obs_ok w n) (run_ops w s ops) outs.
 Proof. intros w Hw. exact (history_correct w Hw (mul2_ok_all w Hw) (div2_ok_all w)). Qed.
 Print Assumptions c19_history.
+
+(* the model passes the very oracle (BigIntModel.oracle: exact value, Index() = top word, words in
+   range, returned value) by which the correspondence run judges the C++ outputs *)
+Theorem c19_model_passes_oracle : forall w, 0 < w -> forall n ops s,
+  Forall (proved_op w) ops -> WF w s -> length (words s) = n ->
+  oracle w n (bval w s) ops (oks (run_ops w s ops)) = true.
+Proof. intros w Hw. exact (model_passes_oracle w Hw (mul2_ok_all w Hw) (div2_ok_all w)). Qed.
+Print Assumptions c19_model_passes_oracle.
 
 (* ... in particular from the freshly constructed (zero) object *)
 Theorem c19_history_from_zero : forall w, 0 < w -> forall n ops outs, (0 < n)%nat ->
@@ -224,7 +253,7 @@ Print Assumptions c19_history_from_zero.
    on which the specification speaks at every step *)
 Theorem c19_history_nonvacuous :
   let ops := [OSet 64 18446744073709551615; OShr 9; OMul 255; OAdd 64 4294967296; OSub 8 7; ODiv 129;
-              OShl 13; OFfb; OFlb; OCmp 5; ONarrow 16; OAnd 8 240; OOr 8 1; OCopy 64 65536; OClear] in
+              OShl 13; OFfb; OFlb; OCmp 5; ONarrow 16; OAnd 64 1099511627775; OOr 32 16777217; OCopy 64 65536; OClear] in
   Forall (proved_op 8) ops /\ exists outs, spec_run 8 9 0 ops = Some outs /\ length outs = 15%nat.
 Proof. exact history_nonvacuous. Qed.
 Print Assumptions c19_history_nonvacuous.
